@@ -353,6 +353,33 @@ func directedScenarios() []directedT {
 			steps: []stepT{{Kind: "cmd", Arg: "position startpos"}, {Kind: "cmd", Arg: "go infinite"}, {Kind: "release", K: 1, D: 1},
 				{Kind: "release", K: 1, D: 2}, {Kind: "cmd", Arg: "stop"}, {Kind: "cmd", Arg: "isready"}},
 		},
+		// malformed lines: the driver may give up in an orderly way (exit, output closed) or carry on - it must
+		// not hang or crash, idle or searching
+		{
+			name: "illegal-move-leaves-king-in-check-idle",
+			steps: []stepT{{Kind: "cmd", Arg: "position startpos"}, {Kind: "cmd", Arg: "go depth 1"}, {Kind: "release", K: 1, D: 1}, {Kind: "pause", D: 2},
+				{Kind: "cmd", Arg: "position startpos moves f2f3 e7e5 g2g4 d8h4 a2a3"}, {Kind: "cmd", Arg: "isready"}},
+		},
+		{
+			name: "illegal-move-leaves-king-in-check-searching",
+			steps: []stepT{{Kind: "cmd", Arg: "position startpos"}, {Kind: "cmd", Arg: "go infinite"}, {Kind: "release", K: 1, D: 1},
+				{Kind: "cmd", Arg: "position startpos moves f2f3 e7e5 g2g4 d8h4 e1f2"}, {Kind: "cmd", Arg: "isready"}},
+		},
+		{
+			name: "impossible-move-searching",
+			steps: []stepT{{Kind: "cmd", Arg: "position startpos"}, {Kind: "cmd", Arg: "go infinite"}, {Kind: "release", K: 1, D: 1},
+				{Kind: "cmd", Arg: "position startpos moves e2e5"}, {Kind: "cmd", Arg: "isready"}},
+		},
+		{
+			name: "short-fen-searching",
+			steps: []stepT{{Kind: "cmd", Arg: "position startpos"}, {Kind: "cmd", Arg: "go infinite"}, {Kind: "release", K: 1, D: 1},
+				{Kind: "cmd", Arg: "position fen 8/8/8 w - - 0 1"}, {Kind: "cmd", Arg: "isready"}},
+		},
+		{
+			name: "go-depth-x-searching",
+			steps: []stepT{{Kind: "cmd", Arg: "position startpos"}, {Kind: "cmd", Arg: "go infinite"}, {Kind: "release", K: 1, D: 1},
+				{Kind: "cmd", Arg: "go depth x"}, {Kind: "cmd", Arg: "isready"}},
+		},
 		{ // a second go without stop
 			name: "go-go",
 			steps: []stepT{{Kind: "cmd", Arg: "position startpos"}, {Kind: "cmd", Arg: "go depth 3"}, {Kind: "release", K: 1, D: 1},
